@@ -9,7 +9,7 @@ ID = "C17"
 LEVEL = "exploration"
 RULE = (
     "seeded @async_generator() bodies of up to 12 operations, each either an await (a batch item, a child task, a "
-    "constant future, or a list/tuple of 1-3 of them) or a Value; bodies with awaits after the last Value, with no "
+    "constant future, or a list/tuple of 1-3 of them) or a Value (also instances of a Value subclass); bodies with awaits after the last Value, with no "
     "Values, empty bodies, and bodies that re-yield the Values of a nested async generator. For each body: "
     "list_of_generator == the Values in program order; take_first(gen, n) for every n in 0..len+2 == the first n and "
     "the body's own operation counter shows nothing beyond the n-th Value was executed; two successive take_first "
@@ -30,7 +30,7 @@ def make_body(rnd, allow_nested=True):
         r = rnd.random()
         if r < 0.45:
             v += 1
-            ops.append(["value", v])
+            ops.append(["value", v, rnd.random() < 0.3])
         elif r < 0.9 or not allow_nested:
             shape = rnd.choice(["one", "one", "list", "tuple"])
             k = 1 if shape == "one" else rnd.randint(1, 3)
@@ -100,6 +100,12 @@ def build(ctx):
             return child.asynq(n)
         return ConstFuture(("const", n))
 
+    class Row(Value):
+        """user code may subclass Value to carry extra data"""
+
+    def mk(op):
+        return (Row if len(op) > 2 and op[2] else Value)(op[1])
+
     @async_generator()
     def inner_gen(ops):
         for op in ops:
@@ -112,7 +118,7 @@ def build(ctx):
                 else:
                     yield tuple(fs)
             else:
-                yield Value(op[1])
+                yield mk(op)
 
     @async_generator()
     def gen(ops):
@@ -131,7 +137,7 @@ def build(ctx):
                     if not (isinstance(got, tuple) and len(got) == len(fs)):
                         ctx.bad_resume = ("tuple", repr(got)[:60])
             elif op[0] == "value":
-                yield Value(op[1])
+                yield mk(op)
             else:
                 for task in inner_gen(op[1]):
                     v = yield task
